@@ -150,6 +150,21 @@ def gen(args):
                                  oblique=len(row["ops"]) <= 2)
         if rec is None:
             return none
+    elif mode == "oblique-mol":
+        # a small molecule in a tiny strongly oblique cell, radius of several cell lengths, molecule-centred queries
+        rh = row["number"] in (146, 148)
+        rec = xtal.gen_molecular(rng, row, nmols=1, sizes=(2, 3), n=24, vol_per_atom=rng.choice([20.0, 28.0]), with_h=False,
+                                 gram_fn=lambda r: xtal.oblique_gram(r, rhombohedral=rh), min_vol=60.0, max_tries=150)
+        if rec is None:
+            return none
+        nuc = len(row["ops"]) * len(rec["asym"])
+        ch = choose_radius(rng, rec, 9, nuc, target=rng.uniform(7.0, 12.5), budget=6.0e4) or choose_radius(rng, rec, 9, nuc, budget=6.0e4)
+        if ch is None:
+            return none
+        rec["radius"], rec["k"], rec["K"] = ch
+        rec["queries"] = [{"kind": "molecule_environments"}, {"kind": "atom_group_surroundings", "atoms": [0, 1]},
+                          {"kind": "atoms_in_radius", "c": [rng.randint(-24, 48) for _ in range(3)]}]
+        return rec
     elif mode == "oblique":
         # tiny strongly oblique cell, radius of several cell lengths: the regime where a search box derived
         # from radius/|a_i| instead of radius*|a*_i| loses atoms
@@ -228,7 +243,7 @@ def run(ctx):
             mode = "mol" if (i + k) % 3 == 0 and len(r["ops"]) <= 48 else "atomic"
             jobs.append((r, ctx.seed * 99991 + i * 13 + k, mode, maxK))
     for j, r in enumerate(special_rows(rows) * ctx.pick(8, 60)):
-        jobs.append((r, ctx.seed * 7 + 5000 + j, "oblique" if j % 4 else "mol", maxK))
+        jobs.append((r, ctx.seed * 7 + 5000 + j, ("oblique", "oblique-mol", "oblique", "mol")[j % 4], maxK))
     recs = [x for x in pool_map(gen, jobs) if "__none__" not in x]
     ctx.notes["structures_generated"] = len(recs)
     traces = pool_map(drive, recs)
